@@ -101,6 +101,7 @@ fn cond_shape(s: &Value, selftest: bool) -> Vec<Value> {
     let constants = oracle::constants_by_row(&outer.prover_only, &outer.common);
     // observation (not part of the property): does `conditionally_verify_proof_or_dummy` build for this inner shape?
     // (it allocates the dummy verifier-data target with the OUTER configuration's cap height)
+    let mut or_dummy_rows: Vec<Value> = vec![];
     let or_dummy = if s["probe_or_dummy"].as_bool().unwrap_or(false) {
         let r = guarded(|| {
             let mut bld = CircuitBuilder::<F, D>::new(CircuitConfig::standard_recursion_config());
@@ -108,10 +109,34 @@ fn cond_shape(s: &Value, selftest: bool) -> Vec<Value> {
             let pt = bld.add_virtual_proof_with_pis(&common);
             let vd = bld.add_virtual_verifier_data(common.config.fri_config.cap_height);
             bld.conditionally_verify_proof_or_dummy::<C>(c, &pt, &vd, &common).map_err(|e| format!("{e:#}"))?;
-            Ok::<usize, String>(bld.build::<C>().common.degree_bits())
+            let data: CircuitData<F, C, D> = bld.build::<C>();
+            Ok::<_, String>((data, c, pt, vd))
         });
         match r {
-            Ok(Ok(d)) => json!({"built": true, "degree_bits": d}),
+            Ok(Ok((od, oc, opt, ovd))) => {
+                // the one-proof form behaves like the two-proof conditional with the dummy pair in slot 1:
+                // accept iff (condition ? the given pair is valid : true)
+                let oconst = oracle::constants_by_row(&od.prover_only, &od.common);
+                let mut bad = pa.clone();
+                let _ = tamper(&mut bad, "final_poly", &mut r);
+                let cases: Vec<(&str, bool, &PW, &VD)> = vec![
+                    ("valid", true, &pa, &a.data.verifier_only), ("valid", false, &pa, &a.data.verifier_only),
+                    ("tampered", true, &bad, &a.data.verifier_only), ("tampered", false, &bad, &a.data.verifier_only),
+                    ("foreign_vd", true, &pa, &b.data.verifier_only), ("foreign_vd", false, &pa, &b.data.verifier_only),
+                ];
+                for (kind, cnd, p, v) in cases {
+                    let (nat, nd) = native_verdict(p, v, &common);
+                    let cv = run_outer(&od, &oconst, |pw| {
+                        pw.set_bool_target(oc, cnd)?;
+                        pw.set_proof_with_pis_target(&opt, p)?;
+                        pw.set_verifier_data_target(&ovd, v)
+                    });
+                    or_dummy_rows.push(json!({"id": id, "or_dummy_case": kind, "cond": cnd, "native_given": nat, "native_detail": nd,
+                        "inner_cap_height": common.config.fri_config.cap_height, "assignable": cv.assignable, "circuit": cv.accepted,
+                        "stage": cv.stage, "detail": cv.detail}));
+                }
+                json!({"built": true, "degree_bits": od.common.degree_bits()})
+            }
             Ok(Err(e)) => json!({"built": false, "err": e}),
             Err(p) => json!({"built": false, "panic": p.chars().take(200).collect::<String>()}),
         }
@@ -121,6 +146,7 @@ fn cond_shape(s: &Value, selftest: bool) -> Vec<Value> {
     out.push(json!({"id": id, "or_dummy": or_dummy, "inner_cap_height": common.config.fri_config.cap_height, "shape": {"inner_degree_bits": common.degree_bits(), "outer_degree_bits": outer.common.degree_bits(),
         "build_ms": t0.elapsed().as_millis() as u64, "dummy_circuit": dummy.is_ok(), "dummy_panic": dummy.as_ref().err(),
         "binding_bits": cfg.binding_bits(), "inner_pis": common.num_public_inputs, "layers": common.fri_params.reduction_arity_bits}}));
+    out.extend(or_dummy_rows);
     let bad_class = ["", "wires_cap", "final_poly", "init_leaf:1"];
     let mut sampled = 0usize;
     let sample = s["sample"].as_u64().unwrap_or(2) as usize;
